@@ -413,30 +413,94 @@ func c05GlobOrder(c *Check, a *Anchors) {
 	}
 	okStore := false
 	var resultMap *types.Var
-	inspectBody(loop.Body, func(nd ast.Node) bool {
-		as, ok := nd.(*ast.AssignStmt)
-		if !ok || len(as.Lhs) != 1 {
-			return true
-		}
-		ix, ok := ast.Unparen(as.Lhs[0]).(*ast.IndexExpr)
-		if !ok {
-			return true
-		}
-		if u, ok := ast.Unparen(as.Rhs[0]).(*ast.UnaryExpr); ok && u.Op == token.NOT && fieldSel(info, u.X, PkgAst, "Glob", "Negate") {
-			// inside an inner loop over the matches, unconditional there
-			pm := parentMap(loop.Body)
+	// storesNegate: in body, `m[x] = <val>` is unconditional inside an inner loop; val is judged by isVal; returns the map expr
+	storesIn := func(inf *types.Info, body ast.Node, isVal func(ast.Expr) bool) ast.Expr {
+		var out ast.Expr
+		pm := parentMap(body)
+		inspectBody(body, func(nd ast.Node) bool {
+			as, ok := nd.(*ast.AssignStmt)
+			if !ok || len(as.Lhs) != 1 || len(as.Rhs) != 1 {
+				return true
+			}
+			ix, ok := ast.Unparen(as.Lhs[0]).(*ast.IndexExpr)
+			if !ok || !isVal(as.Rhs[0]) {
+				return true
+			}
 			for p := pm[as]; p != nil; p = pm[p] {
 				if inner, ok := p.(*ast.RangeStmt); ok {
 					if unconditionalIn(inner.Body.List, as) {
-						okStore = true
-						resultMap = varOf(info, ix.X)
+						out = ix.X
 					}
 					break
 				}
 			}
-		}
-		return true
-	})
+			return true
+		})
+		return out
+	}
+	isNotNegate := func(e ast.Expr) bool {
+		u, ok := ast.Unparen(e).(*ast.UnaryExpr)
+		return ok && u.Op == token.NOT && fieldSel(info, u.X, PkgAst, "Glob", "Negate")
+	}
+	if m := storesIn(info, loop.Body, isNotNegate); m != nil {
+		okStore, resultMap = true, varOf(info, m)
+	} else {
+		// the store lives in a recorder of the package: a call in the loop that receives `!g.Negate` and stores that parameter,
+		// unconditionally for every element it is given, into its receiver / map parameter
+		inspectBody(loop.Body, func(nd ast.Node) bool {
+			call, ok := nd.(*ast.CallExpr)
+			if !ok || okStore {
+				return true
+			}
+			fn, _ := callee(info, call).(*types.Func)
+			h := c.P.DeclOf(fn)
+			if h == nil || h.Decl == nil || h.Pkg.PkgPath != PkgFingerprint {
+				return true
+			}
+			hinfo := h.Info()
+			pi := 0
+			var valParam *types.Var
+			paramArg := map[*types.Var]ast.Expr{}
+			for _, fld := range h.Type.Params.List {
+				for _, id := range fld.Names {
+					pv, _ := hinfo.Defs[id].(*types.Var)
+					if pi < len(call.Args) && pv != nil {
+						paramArg[pv] = call.Args[pi]
+						if isNotNegate(call.Args[pi]) {
+							valParam = pv
+						}
+					}
+					pi++
+				}
+			}
+			topLevel := false
+			for _, st := range loop.Body.List {
+				if es, ok := st.(*ast.ExprStmt); ok && ast.Unparen(es.X) == ast.Expr(call) {
+					topLevel = true // a statement of the loop body itself, as the inner loop over the matches was
+				}
+			}
+			if valParam == nil || !topLevel {
+				return true
+			}
+			m := storesIn(hinfo, h.Body, func(e ast.Expr) bool { return varOf(hinfo, e) == valParam })
+			if m == nil {
+				return true
+			}
+			mv := varOf(hinfo, m)
+			if mv == nil {
+				return true
+			}
+			c.Fn(h)
+			if arg, ok := paramArg[mv]; ok {
+				okStore, resultMap = true, varOf(info, arg)
+			} else if h.Decl.Recv != nil && len(h.Decl.Recv.List) == 1 && len(h.Decl.Recv.List[0].Names) == 1 && hinfo.Defs[h.Decl.Recv.List[0].Names[0]] == mv {
+				if sel, ok := ast.Unparen(call.Fun).(*ast.SelectorExpr); ok {
+					okStore, resultMap = true, varOf(info, sel.X)
+				}
+			}
+			return true
+		})
+	}
 	c.Decide(okStore, "glob-order", "later-wins@"+name, loop.Pos(), "every match of every pattern overwrites the map entry with !Negate, in pattern order", "Globs no longer records `!Negate` for every match of every pattern in order: an exclude entry would not remove earlier matches (or an include after an exclude would not re-add them)")
 	// returns via a sorting collector
 	sorted := false
@@ -446,7 +510,11 @@ func c05GlobOrder(c *Check, a *Anchors) {
 		}
 		if call, ok := ast.Unparen(r.Results[0]).(*ast.CallExpr); ok {
 			if fn, ok := callee(info, call).(*types.Func); ok {
-				if d := c.P.DeclOf(fn); d != nil && len(call.Args) == 1 && varOf(info, call.Args[0]) == resultMap {
+				onMap := len(call.Args) == 1 && varOf(info, call.Args[0]) == resultMap
+				if sel, isSel := ast.Unparen(call.Fun).(*ast.SelectorExpr); isSel && len(call.Args) == 0 && varOf(info, sel.X) == resultMap {
+					onMap = true // a method of the result set
+				}
+				if d := c.P.DeclOf(fn); d != nil && resultMap != nil && onMap {
 					c.Fn(d)
 					if sortsBeforeReturn(d) {
 						sorted = true
